@@ -648,6 +648,18 @@ fn check_full_expr(env: &Env, e: &Expr, in_condition: bool, ex: &Excl) -> Option
                             if is_reg(a) || is_reg(b) {
                                 reg = true;
                             }
+                            // the result of a call has the same high byte as a register: the constant 0,
+                            // which is folded with a constant on the other side (without the carry)
+                            let is_call = |e: &Expr| matches!(e, Expr::Call(_, _));
+                            let is_const = |e: &Expr| match e {
+                                Expr::Lit(_, _) => true,
+                                Expr::Un(_, x) => matches!(**x, Expr::Lit(_, _)),
+                                Expr::Lv(LValue::Var(v)) => env.globals.get(v.as_str()).map(|g| matches!(g.kind, VarKind::ConstScalar(_))).unwrap_or(false),
+                                _ => false,
+                            };
+                            if (is_call(a) && is_const(b)) || (is_call(b) && is_const(a)) {
+                                reg = true;
+                            }
                         }
                         Expr::Lv(LValue::Index(n, i)) => {
                             let simple = match &**i {
